@@ -434,13 +434,14 @@ theorem eval_ok {Val : Type} (G : Graph Val) (n : Nat) (dflt : Val) (hd : G.defa
     | some r =>
       exact ⟨m, r, ⟨0, 1⟩, rfl, ⟨Grows.refl m, by simp [hm], by simp, by simp⟩⟩
     | none =>
-      simp only [hd]
+      simp only [storeDefault, hd]
       have h1 := pot_set_none (fun _ => 1) m v dflt n hv hm
       have hE := pot_set_none (fun k => (G.deps k).length) m v dflt n hv hm
       obtain ⟨m2, vals, w, h2, g2, b2, c2⟩ :=
         evalArgs_ok n (fun k => (G.deps k).length) fuel (eval G fuel)
           (fun m c hc' hb => ih m c hc' hb) (G.deps v) (hc v hv) (m.set v dflt) (by omega)
       rw [h2]
+      simp only [finishEval]
       refine ⟨_, _, _, rfl, ?_, ?_, ?_, ?_⟩
       · exact ((grows_set m v dflt).trans g2).trans (grows_set m2 v _)
       · simp [Memo.set]
